@@ -355,7 +355,7 @@ def catalogue(tier="quick"):
                         for d, dots, tup in opts:
                             e = Ev("note", [(rnd.choice(steps), rnd.choice([None, None, 1, -1]), rnd.choice([3, 4, 5]))], d, dots, tup)
                             n = 3 if tup else 1
-                            if e.quarters() * n <= left:
+                            if e.quarters() * n <= left and ((left - e.quarters() * n) * 4).denominator == 1:
                                 for _ in range(n):
                                     kind = rnd.choice(["note", "note", "chord", "rest"])
                                     p = [(rnd.choice(steps), rnd.choice([None, None, 1, -1]), rnd.choice([3, 4, 5]))]
